@@ -41,6 +41,9 @@ pub enum Op {
     Batch { items: Vec<(i64, i64, u64)> },
     /// batch_insert of n generated items (key base+i, value i, hash id hash_base+i)
     BulkBatch { n: u32, base: i64, hash_base: u64 },
+    /// n single inserts (key base+i, value i, hash id hash_base+i), each next to the
+    /// previously inserted leaf: a chain of depth n
+    ChainBuild { n: u32, base: i64, hash_base: u64, right: bool },
     Lazy,
     Proofs,
     RestartMem,
@@ -55,6 +58,7 @@ impl Op {
             Op::Delete { .. } => "delete",
             Op::Batch { .. } => "batch",
             Op::BulkBatch { .. } => "batch",
+            Op::ChainBuild { .. } => "insert_chain",
             Op::Lazy => "lazy",
             Op::Proofs => "proofs",
             Op::RestartMem => "restart_mem",
@@ -160,7 +164,9 @@ impl Model {
                     Expect::Err("unknown_key")
                 }
             }
-            Op::BulkBatch { n, base, hash_base } => self.predict(&Op::Batch { items: bulk_items(*n, *base, *hash_base) }),
+            Op::BulkBatch { n, base, hash_base } | Op::ChainBuild { n, base, hash_base, .. } => {
+                self.predict(&Op::Batch { items: bulk_items(*n, *base, *hash_base) })
+            }
             Op::Batch { items } => {
                 let mut ks = BTreeSet::new();
                 let mut hs = BTreeSet::new();
@@ -209,6 +215,13 @@ impl Model {
             }
             Op::BulkBatch { n, base, hash_base } => {
                 self.apply(&Op::Batch { items: bulk_items(*n, *base, *hash_base) });
+            }
+            Op::ChainBuild { n, base, hash_base, .. } => {
+                let items = bulk_items(*n, *base, *hash_base);
+                self.apply(&Op::Batch { items: items.clone() });
+                if let Some(last) = items.last() {
+                    self.newest = Some(last.0);
+                }
             }
             Op::Upsert { key, value, hash } => {
                 if let Some((_, old)) = self.kv.get(key) {
@@ -607,6 +620,34 @@ impl C18 {
                         .collect();
                     guard(|| blob.batch_insert(v).map_err(|e| variant_name(&e)))
                 }
+                Op::ChainBuild { n, base, hash_base, right } => {
+                    c.inc("probe.chain_build");
+                    if expect != Expect::Ok {
+                        // only generated without conflicts; a conflicting one is a no-op that must fail
+                        Ok(Err("ChainConflict".to_string()))
+                    } else {
+                        let side = if *right { Side::Right } else { Side::Left };
+                        let mut prev: Option<i64> = match model.newest {
+                            Some(k) if model.kv.contains_key(&k) => Some(k),
+                            _ => model.kv.keys().next().copied(),
+                        };
+                        let items = bulk_items(*n, *base, *hash_base);
+                        guard(|| {
+                            for (k, v, h) in &items {
+                                let loc = match prev {
+                                    None => InsertLocation::Auto {},
+                                    Some(pk) => InsertLocation::Leaf {
+                                        index: blob.get_key_index(KeyId(pk)).map_err(|e| variant_name(&e))?,
+                                        side,
+                                    },
+                                };
+                                blob.insert(KeyId(*k), ValueId(*v), &hash_of(*h), loc).map_err(|e| variant_name(&e))?;
+                                prev = Some(*k);
+                            }
+                            Ok(())
+                        })
+                    }
+                }
                 Op::Lazy => guard(|| blob.calculate_lazy_hashes().map_err(|e| variant_name(&e))),
                 Op::Proofs => {
                     // exercise the call; before recomputation a Dirty error is legal
@@ -724,7 +765,7 @@ impl C18 {
             last_failed = !ok;
             last_batch = matches!(op, Op::Batch { .. } | Op::BulkBatch { .. });
             match op {
-                Op::Insert { .. } | Op::Upsert { .. } | Op::Delete { .. } | Op::Batch { .. } | Op::BulkBatch { .. } if ok => {
+                Op::Insert { .. } | Op::Upsert { .. } | Op::Delete { .. } | Op::Batch { .. } | Op::BulkBatch { .. } | Op::ChainBuild { .. } if ok => {
                     dirty_possible = true;
                 }
                 Op::Lazy => dirty_possible = false,
@@ -751,6 +792,7 @@ impl C18 {
             d.bytes(blob.read_blob());
         }
         c.max("max.leaves", max_leaves as u64);
+        c.max("max.chain_built", case.ops.iter().map(|o| if let Op::ChainBuild { n, .. } = o { u64::from(*n) } else { 0 }).max().unwrap_or(0));
         let nontrivial = if had_fault && max_leaves >= 3 { Some(shape.finish()) } else { None };
         (None, d.finish(), nontrivial)
     }
@@ -909,8 +951,10 @@ impl Engine for C18 {
             w[6] = 1;
         }
         if chain {
-            w[0] = 12;
-            w[2] = w[2].min(1);
+            w[0] = 6;
+            w[1] = w[1].max(2);
+            w[2] = w[2].clamp(1, 2);
+            w[4] = w[4].max(2);
         }
         let conflict_pct = if faults { *rng.pick(&[0u64, 10, 25, 50]) } else { 0 };
         let total: u64 = w.iter().sum();
@@ -924,6 +968,18 @@ impl Engine for C18 {
                 g.model.apply(&op);
             }
             ops.push(op);
+        }
+        if chain {
+            let n = if g.rng.chance(1, 10) { *g.rng.pick(&[250u32, 257, 258, 300]) } else { *g.rng.pick(&[20u32, 60, 130]) };
+            let op = Op::ChainBuild { n, base: 20_000_000, hash_base: 1 << 33, right: chain_right };
+            if g.model.predict(&op) == Expect::Ok {
+                g.model.apply(&op);
+                ops.push(op);
+                // hashes are usually recomputed before the deep end is touched again
+                if g.rng.chance(3, 4) {
+                    ops.push(Op::Lazy);
+                }
+            }
         }
         let mut attempts = 0u32;
         while ops.len() < len {
@@ -953,13 +1009,15 @@ impl Engine for C18 {
                     Op::Insert { key, value: g.rng.below(1000) as i64 - 500, hash, loc }
                 }
                 "upsert" => {
-                    let key = if g.rng.chance(3, 5) { g.existing_key() } else { None }
+                    let newest = g.model.newest.filter(|k| g.model.kv.contains_key(k));
+                    let key = if chain && newest.is_some() && g.rng.chance(1, 2) { newest } else if g.rng.chance(3, 5) { g.existing_key() } else { None }
                         .unwrap_or_else(|| g.rand_key());
                     let hash = if conflict { g.existing_hash().unwrap_or_else(|| g.any_hash()) } else if faults { g.any_hash() } else { g.new_hash() };
                     Op::Upsert { key, value: g.rng.below(1000) as i64, hash }
                 }
                 "delete" => {
-                    let key = if faults && (conflict || g.rng.chance(1, 5)) { Some(g.rand_key()) } else { g.existing_key() };
+                    let newest = g.model.newest.filter(|k| g.model.kv.contains_key(k));
+                    let key = if chain && newest.is_some() && g.rng.chance(1, 2) { newest } else if faults && (conflict || g.rng.chance(1, 5)) { Some(g.rand_key()) } else { g.existing_key() };
                     let Some(key) = key else { continue };
                     Op::Delete { key }
                 }
@@ -1055,6 +1113,10 @@ impl Engine for C18 {
                     alts.push(Op::Insert { key: *key, value: *value, hash: *hash, loc: Loc::Auto });
                 }
                 Op::RestartFile => alts.push(Op::RestartMem),
+                Op::ChainBuild { n, base, hash_base, right } if *n > 1 => {
+                    alts.push(Op::ChainBuild { n: n / 2, base: *base, hash_base: *hash_base, right: *right });
+                    alts.push(Op::ChainBuild { n: n - 1, base: *base, hash_base: *hash_base, right: *right });
+                }
                 Op::BulkBatch { n, base, hash_base } if *n > 1 => {
                     alts.push(Op::BulkBatch { n: n / 2, base: *base, hash_base: *hash_base });
                     alts.push(Op::BulkBatch { n: n - 1, base: *base, hash_base: *hash_base });
